@@ -91,6 +91,10 @@ def _case(pk, iname, cmd, via):
         nodes += [W.f(files_dir + '/zz', 'ZZ', 0o644, 3200),
                   W.f(real_td + '/info/zz.trashinfo', K.info_text('w/zz', '2020-01-01T00:00:00'), 0o600, 3201),
                   W.f(real_td + '/directorysizes', 'x', 0o644, 3202)]
+        # orphans (payloads without a .trashinfo) that are symbolic links to directories outside: trash-empty sweeps
+        # orphans too, and must unlink the link, not empty what it points to
+        nodes += [W.l(files_dir + '/orphan-link-abs', '/v/out/tdir', 3210), W.l(files_dir + '/orphan-link-rel', '../../out/tdir', 3211),
+                  W.d(files_dir + '/orphan-tree'), W.l(files_dir + '/orphan-tree/inner-link', '/v/out/tdir', 3212)]
         # a decoy: $topdir/.Trash is a symbolic link to a sticky directory that holds a $uid directory with entries.
         # A symlinked .Trash must not be used, so nothing behind the link may be purged (it is outside every trash dir)
         nodes += [W.d('/v/shared', 0o1777), W.l('/v/.Trash', 'shared', 952), W.f('/v/shared/1000/files/orphan', 'DECOY-ORPHAN', 0o644, 3300)]
